@@ -657,11 +657,12 @@ pub struct Exec {
     last_run: usize,
     /// if false, scheduling takes the default without recording choices
     pub explore_sched: bool,
+    pub verbose: bool,
 }
 
 impl Exec {
     pub fn new(sh: Sh) -> Exec {
-        Exec { sh, tasks: vec![], spawner: Spawner::default(), steps: 0, last_run: usize::MAX, explore_sched: true }
+        Exec { sh, tasks: vec![], spawner: Spawner::default(), steps: 0, last_run: usize::MAX, explore_sched: true, verbose: std::env::var("VERIF_TRACE").is_ok() }
     }
 
     fn adopt_spawned(&mut self) {
@@ -740,6 +741,10 @@ impl Exec {
         }
         let k = if self.explore_sched { self.sh.lock().unwrap().choose(tag::SCHED, total) } else { 0 };
         self.steps += 1;
+        if self.verbose {
+            let names: Vec<&str> = run.iter().map(|&i| self.tasks[i].name.as_str()).collect();
+            println!("  step {:>3}: runnable {:?} io_ready {} -> {}", self.steps, names, n_io, if k < run.len() { names[k] } else { "io-ready" });
+        }
         if k < run.len() {
             self.poll_task(run[k]);
         } else {
